@@ -477,6 +477,11 @@ def execute(case):
                     continue
                 if kind == 'bcast':
                     continue
+                if case.get('controller') == 'coro' and case.get('comm') == 'bare' and isinstance(rec['reply'], asyncio.Task) and rec['reply'].done() and not rec['reply'].cancelled() and rec['reply'].exception() is None and isinstance(rec['reply'].result(), (concurrent.futures.Future, asyncio.Future)):
+                    # the coroutine controller awaits the outcome: what it returns is the answer, not one more future (with the
+                    # in-process loop wrapper in between there is one more level than over a broker: only the bare case is judged)
+                    v('reply-not-final', f"message {rec['msg']} in state {rec['state_before']}: the coroutine controller returned {type(rec['reply'].result()).__name__} instead of the outcome")
+                    continue
                 leaked = _loop_future_in_reply(rec['reply'], a.drain)
                 if leaked is not None:
                     v('reply-not-final', f"message {rec['msg']} in state {rec['state_before']}: the reply that reached the controller is {leaked}, a future of the process's event loop instead of the final outcome")
